@@ -58,6 +58,14 @@ CLAIMED = {
         "implementation only — partial. Every cut offset of small files and every field boundary ±1 of large ones is read through both readers and three cache states.",
    technique="Lean 4 proof (generic truncation argument over reader programs) + exhaustive cut-offset enumeration on the implementation",
    design="§5 C07"),
+ "C10": dict(
+   text="Theorem (Props/C10.lean) run_refines: for EVERY straight-line program over the modelled API (indexing, slicing, gather, permute/transpose, squeeze, unsqueeze, reshape, split parts, cat, stack, elementwise ops with masked and "
+        "scalar operands, pow, square, sqrt, strict sum, tf mean/variance/std, square matmul, fix_nan), every shape, every mask, every scalar type and every interpretation of the arithmetic (no law assumed: holds with NaN/±inf), "
+        "the pair interpreter (operations applied to value tensor and mask separately, as the Python classes do) equals the reference interpreter on ONE tensor of (value, valid) pairs, keeps shapes identical and fails exactly when the reference fails; "
+        "structural operations are one polymorphic pick (pick_zip); elementwise / strict-sum / mean validity rules and exact zero-fill as corollaries. Non-square matmul is excluded and proved misaligned on a witness (known finding K1). "
+        "Random programs are executed on the real torch and tensorflow classes and compared step by step with the model.",
+   technique="Lean 4 proof (refinement between two interpreters, induction over programs, parametric in the scalar type) + differential correspondence on random programs, both frameworks",
+   design="§5 C10"),
  "C18": dict(
    text="Theorem (Props/C18.lean): for the cache protocol with atomic lookup+copy and update sections (the code's locked regions), ANY number of threads and ANY schedule, a finished thread holds exactly the "
         "decode of its own file (reads_isolated, by the invariant 'the cache is empty or a consistent snapshot of one file's header'), plus progress; the protocol with a separate compare and fetch is proved to violate "
